@@ -41,16 +41,25 @@ type step struct {
 var classCount = map[string]int64{}
 var totalReq, totalAccepted, totalAcks, totalWraps, totalReconnects int64
 
-func stream(seed int64, tcp bool, consumer string, procs int, n int) {
+func stream(seed int64, tcp bool, consumer string, procs int, n int, real bool) {
 	runtime.GOMAXPROCS(procs)
 	rng := rand.New(rand.NewSource(seed))
-	sig := fmt.Sprintf("stream tcp=%v consumer=%s procs=%d n=%d seed=%d", tcp, consumer, procs, n, seed)
+	sig := fmt.Sprintf("stream tcp=%v consumer=%s procs=%d n=%d real-socket=%v seed=%d", tcp, consumer, procs, n, real, seed)
 	r.Crumb("C04 %s", sig)
 	network := "udp"
 	if tcp {
 		network = "tcp"
 	}
 	s := memsock.New(network)
+	if real {
+		// loopback slice: the real knx.NewTunnel and the library's UDP socket
+		var err error
+		if s, err = memsock.NewBridge(); err != nil {
+			r.Inconclusive("bridge: " + err.Error())
+			return
+		}
+		defer s.CloseBridge()
+	}
 	var cmu sync.Mutex
 	epoch := 0
 	wantNew := true
@@ -67,7 +76,14 @@ func stream(seed int64, tcp bool, consumer string, procs int, n int) {
 			s.Deliver(&knxnet.ConnRes{Channel: ch, Control: knxnet.HostInfo{Protocol: knxnet.UDP4}})
 		}
 	}
-	c, err := tun.Start(s, knx.TunnelConfig{ResendInterval: 5 * time.Millisecond, HeartbeatInterval: 10 * time.Minute, ResponseTimeout: 200 * time.Millisecond, UseTCP: tcp})
+	tcfg := knx.TunnelConfig{ResendInterval: 5 * time.Millisecond, HeartbeatInterval: 10 * time.Minute, ResponseTimeout: 200 * time.Millisecond, UseTCP: tcp}
+	var c *tun.Client
+	var err error
+	if real {
+		c, err = tun.StartReal(s, tcfg)
+	} else {
+		c, err = tun.Start(s, tcfg)
+	}
 	if err != nil {
 		r.Violate("connect.failed", nil, map[string]interface{}{"signature": sig}, "connect failed: %v", err)
 		return
@@ -142,8 +158,26 @@ func stream(seed int64, tcp bool, consumer string, procs int, n int) {
 			wantAcks = append(wantAcks, ackT{ch, st.Seq, 0})
 		}
 	}
+	countAcks := func() int {
+		k := 0
+		for _, e := range s.LogFrom(0) {
+			if e.Kind == memsock.Tx && !e.Err && e.P.Service == spec.SvcTunnelRes {
+				k++
+			}
+		}
+		return k
+	}
 	deliver := func(st step) bool {
-		return s.Deliver(&knxnet.TunnelReq{Channel: st.Ch, SeqNumber: st.Seq, Payload: gateway.Ind(st.ID)})
+		ok := s.Deliver(&knxnet.TunnelReq{Channel: st.Ch, SeqNumber: st.Seq, Payload: gateway.Ind(st.ID)})
+		if real && ok && !tcp {
+			// over the real socket the hand-over cannot be observed: the next
+			// acknowledgement is the barrier (datagrams on one socket stay in order)
+			dl := time.Now().Add(3 * time.Second)
+			for countAcks() < len(wantAcks) && time.Now().Before(dl) {
+				time.Sleep(50 * time.Microsecond)
+			}
+		}
+		return ok
 	}
 	for i := 0; i < n; i++ {
 		var st step
@@ -239,6 +273,13 @@ func stream(seed int64, tcp bool, consumer string, procs int, n int) {
 	// barrier: a frame the client ignores; once it is taken, every earlier ack is logged
 	s.Deliver(&knxnet.ConnStateRes{Channel: ch + 1})
 	s.Deliver(&knxnet.ConnStateRes{Channel: ch + 1})
+	if real {
+		st := step{"in-sequence", ch, expected, nextID}
+		nextID++
+		apply(st)
+		deliver(st)
+		time.Sleep(2 * time.Millisecond)
+	}
 	close(startReading)
 	// drain: every accepted telegram must arrive
 	deadline := time.Now().Add(10 * time.Second)
@@ -366,7 +407,10 @@ func run(rr *mon.Run) {
 	procs := []int{1, 2, 4, 16}
 	consumers := []string{"ready", "intermittent", "stalled"}
 	for i := 0; i < n; i++ {
-		stream(r.Seed()*10000+int64(i), i%4 == 3, consumers[i%3], procs[(i/3)%4], 1200)
+		stream(r.Seed()*10000+int64(i), i%4 == 3, consumers[i%3], procs[(i/3)%4], 1200, false)
+	}
+	for i := 0; i < r.Pick(6, 100); i++ {
+		stream(r.Seed()*20000+int64(i), false, consumers[i%3], 16, 400, true)
 	}
 	r.Observe("requests_injected", totalReq)
 	r.Observe("requests_by_class", classCount)
